@@ -142,8 +142,8 @@ theorem pres_sliceVal (lv : Val) (lo hi : Option Val) : Pres (sliceVal lv lo hi)
   · refine pres_bind (pres_optBound _ _ _) fun _ => pres_bind (pres_optBound _ _ _) fun _ => pres_pure _
   · exact pres_unmod
 
-theorem pres_construct (S : Sys) (c : Nat) (args : List Val) : Pres (construct S c args) := by
-  unfold construct; pres_tac
+theorem pres_construct (S : Sys) (c : Nat) (args : List Val) : Pres (construct S c args) :=
+  fun _ => ⟨rfl, rfl, rfl⟩
 
 theorem pres_getAttr (S : Sys) (v : Val) (n : Nat) : Pres (getAttr S v n) := by unfold getAttr; pres_tac
 theorem pres_strArg (v : Val) : Pres (strArg v) := by unfold strArg; pres_tac
